@@ -217,10 +217,10 @@ func implSrcheck(t []string) string {
 			comp, _ := strconv.Atoi(p[1])
 			switch {
 			case p[2] == "A":
-				chunksOf[i] = append(chunksOf[i], hbFrameBytes(byte(sys), byte(comp), 0, common.MAV_AUTOPILOT_ARDUPILOTMEGA))
+				chunksOf[i] = append(chunksOf[i], hbFrameBytesV(byte(sys), byte(comp), 0, common.MAV_AUTOPILOT_ARDUPILOTMEGA, 1+7*i+len(chunksOf[i])))
 			case p[2][0] == 'G':
 				ap, _ := strconv.Atoi(p[2][1:])
-				chunksOf[i] = append(chunksOf[i], hbFrameBytes(byte(sys), byte(comp), 0, common.MAV_AUTOPILOT(ap)))
+				chunksOf[i] = append(chunksOf[i], hbFrameBytesV(byte(sys), byte(comp), 0, common.MAV_AUTOPILOT(ap), 1+7*i+len(chunksOf[i])))
 			default:
 				chunksOf[i] = append(chunksOf[i], sysStatusBytes(byte(sys), byte(comp)))
 			}
@@ -253,9 +253,17 @@ func implSrcheck(t []string) string {
 					j++
 				}
 				c := conns[i]
+				gaveUp := false
 				c.before = func(idx int) {
+					if gaveUp {
+						return
+					}
 					dl := time.Now().Add(2 * time.Second)
-					for idx < len(owed) && len(c.snapshotWrites()) < owed[idx] && time.Now().Before(dl) {
+					for idx < len(owed) && len(c.snapshotWrites()) < owed[idx] {
+						if !time.Now().Before(dl) {
+							gaveUp = true // what is owed is not coming: the run is a failure anyway, do not slow it down further
+							return
+						}
 						time.Sleep(50 * time.Microsecond)
 					}
 				}
